@@ -1249,3 +1249,31 @@ func ReturnMaySucceed(fn *ssa.Function, r *ssa.Return) bool {
 	}
 	return false
 }
+
+// IsParamLike: v is the named parameter / captured variable, or a load of the
+// local cell the parameter was spilled to (parameters captured by closures).
+func IsParamLike(v ssa.Value, name string) bool {
+	if IsParam(v, name) {
+		return true
+	}
+	u, ok := v.(*ssa.UnOp)
+	if !ok || u.Op != token.MUL {
+		return false
+	}
+	switch a := u.X.(type) {
+	case *ssa.FreeVar:
+		return a.Name() == name
+	case *ssa.Alloc:
+		n := 0
+		for _, r := range *a.Referrers() {
+			if s, ok := r.(*ssa.Store); ok && s.Addr == a {
+				if !IsParam(s.Val, name) {
+					return false
+				}
+				n++
+			}
+		}
+		return n > 0
+	}
+	return false
+}
